@@ -26,6 +26,7 @@ type Stmt struct {
 	N       int    `json:"n,omitempty"`
 	Body    []Stmt `json:"body,omitempty"`    // defer: statements of the deferred closure (mark recover panic stop fatal)
 	Closure bool   `json:"closure,omitempty"` // call: through an immediately invoked function literal
+	Native  bool   `json:"native,omitempty"`  // call: a native function calls back a function literal that makes the call
 }
 
 type Func struct {
@@ -77,7 +78,11 @@ func render(c Case, forGc bool) (src string, panicLine map[int]int) {
 					w("%sif r := recover(); r != nil {\n%s\thost.Mark(%d)\n%s} else {\n%s\thost.Mark(%d)\n%s}\n", ind, ind, 1000+s.N, ind, ind, 2000+s.N, ind)
 				}
 			case "call":
-				if s.Closure {
+				if s.Native && forGc {
+					w("%scallBack(func() {\n%s\tf%d()\n%s})\n", ind, ind, s.N, ind)
+				} else if s.Native {
+					w("%shost.Call(func() {\n%s\tf%d()\n%s})\n", ind, ind, s.N, ind)
+				} else if s.Closure {
 					w("%sfunc() {\n%s\tf%d()\n%s}()\n", ind, ind, s.N, ind)
 				} else {
 					w("%sf%d()\n", ind, s.N)
@@ -99,7 +104,7 @@ func render(c Case, forGc bool) (src string, panicLine map[int]int) {
 		w("}\n\n")
 	}
 	if forGc {
-		w("func mark(n int) {\n\tprintln(\"m\", n)\n}\n")
+		w("func mark(n int) {\n\tprintln(\"m\", n)\n}\n\nfunc callBack(f func()) { f() }\n")
 	} else {
 		w("var _ = host.Mark\n")
 	}
@@ -304,6 +309,7 @@ func judgeScriggo(c Case) string {
 		"Mark":  func(n int) { trace = append(trace, n) },
 		"Stop":  func(env native.Env, n int) { env.Stop(stopErr(n)) },
 		"Fatal": func(env native.Env, n int) { env.Fatal(fatalVal{n}) },
+		"Call":  func(f func()) { f() },
 	}}
 	prog, err := scriggo.Build(scriggo.Files{"main.go": []byte(src)}, &scriggo.BuildOptions{Packages: native.Packages{"host": host}})
 	if err != nil {
@@ -441,7 +447,7 @@ func (g *g) body(i, nfuncs, depth int) []Stmt {
 			b = append(b, Stmt{Kind: "defer", Body: g.deferBody()})
 		case c <= 8:
 			if i+1 < nfuncs {
-				b = append(b, Stmt{Kind: "call", N: rapid.IntRange(i+1, nfuncs-1).Draw(g.t, "callee"), Closure: rapid.IntRange(0, 3).Draw(g.t, "viaclosure") == 0})
+				b = append(b, Stmt{Kind: "call", N: rapid.IntRange(i+1, nfuncs-1).Draw(g.t, "callee"), Closure: rapid.IntRange(0, 3).Draw(g.t, "viaclosure") == 0, Native: rapid.IntRange(0, 4).Draw(g.t, "vianative") == 0})
 			}
 		case c == 9:
 			b = append(b, Stmt{Kind: "panic", N: g.id()})
